@@ -46,18 +46,36 @@ Inductive wop :=
 | XferBA (id : N)        (* A.transfer_from(B, [ref], transfer="copy") *)
 | XferAB (id : N).
 
+(* Butler.transfer_from between datastores of different kinds (Datastore.transfer_from / FileDatastore /
+   ChainedDatastore): a file datastore accepts only a file datastore as source, an in-memory datastore accepts
+   nothing, a chained datastore accepts a file or a chained source (its file member receives the artifacts); any
+   other pair is refused with TypeError before anything is touched -- except that a chained target notices an
+   in-memory source only when that source actually holds the dataset (otherwise nothing is left to transfer). *)
+Definition xfer_refused (dst src : kind) (src_holds_mem : bool) : bool :=
+  match dst, src with
+  | KFile, KFile | KChained, KFile | KChained, KChained => false
+  | KChained, KMem => src_holds_mem
+  | KMem, KMem => false                      (* Model/Datastore.v: NotImplementedError *)
+  | _, _ => true
+  end.
+
+Definition xfer tbl (cd cs : cfg) (dst src : cstate) (id : N) : cstate * outcome :=
+  if xfer_refused (c_kind cd) (c_kind cs) (has_mem cobj cbytes src id)
+  then (dst, Refused TypeErr)
+  else cstep tbl cd dst (Transfer cobj cbytes src id).
+
 Definition wstep tbl (ca cb : cfg) (w : cstate * cstate) (x : wop) : (cstate * cstate) * outcome :=
   let (a, b) := w in
   match x with
   | OnA y => let (a', r) := cstep tbl ca a y in ((a', b), r)
   | OnB y => let (b', r) := cstep tbl cb b y in ((a, b'), r)
-  | XferBA id => let (a', r) := cstep tbl ca a (Transfer cobj cbytes b id) in ((a', b), r)
-  | XferAB id => let (b', r) := cstep tbl cb b (Transfer cobj cbytes a id) in ((a, b'), r)
+  | XferBA id => let (a', r) := xfer tbl ca cb a b id in ((a', b), r)
+  | XferAB id => let (b', r) := xfer tbl cb ca b a id in ((a, b'), r)
   end.
 
 (* ---- observations ---------------------------------------------------------------------------- *)
 Definition err_code (e : err) : N :=
-  match e with Conflict => 1 | NotFound => 2 | Integrity => 3 | DecodeErr => 4 | KeyErr => 5 | ValueErr => 6 | NotImpl => 7 end%N.
+  match e with Conflict => 1 | NotFound => 2 | Integrity => 3 | DecodeErr => 4 | KeyErr => 5 | ValueErr => 6 | NotImpl => 7 | TypeErr => 8 end%N.
 
 Definition out_code (r : outcome) : N := match r with Done => 0%N | Refused e => err_code e end.
 
